@@ -15,6 +15,7 @@ import (
 	"path/filepath"
 	"sort"
 	"strings"
+	"sync"
 	"sync/atomic"
 	"time"
 
@@ -1043,11 +1044,31 @@ func (w *World) apply(i int, op Op) bool {
 				break
 			}
 		}
+		closed := map[string]bool{}
+		defer func() {
+			// after a failure: close whatever is still open, first-opened first, so that the database
+			// itself can be closed (its pool waits for running jobs)
+			var wg sync.WaitGroup
+			for _, of := range fs {
+				if !closed[of.key] {
+					wg.Add(1)
+					go func(f fs_db.File) { defer wg.Done(); _ = f.Close() }(of.f)
+					time.Sleep(20 * time.Millisecond)
+				}
+			}
+			fin := make(chan struct{})
+			go func() { wg.Wait(); close(fin) }()
+			select {
+			case <-fin:
+			case <-time.After(10 * time.Second):
+			}
+		}()
 		for j := range fs {
 			of := fs[j]
 			if op.Len%2 == 0 {
 				of = fs[len(fs)-1-j]
 			}
+			closed[of.key] = true
 			done := make(chan error, 1)
 			go func() { done <- of.f.Close() }()
 			select {
